@@ -38,7 +38,8 @@ pub fn scenario_rows() -> Vec<Tags> {
         def("c", &["a"], vec![]),
         def("d", &["b", "c"], vec![]),
         def("entity", &[], vec![]),
-        def("e2", &["entity"], vec![]),
+        // prototypes given as text, the way the Project Haystack defs give them
+        def("e2", &["entity"], vec![("children", V::str("pt point\n// a comment\n\n  eq equip b:\"x\"\nnot a tag line {\n"))]),
         def("b-c", &["e2"], vec![]),
         def("relationship", &[], vec![]),
         def("rel", &["relationship"], vec![("transitive", V::Marker)]),
@@ -304,6 +305,7 @@ pub fn scenario_rows_variant() -> Vec<Tags> {
     set(&mut rows, "plant", "children", Some(V::List(vec![V::dict(&[("eq", V::Marker)])])));
     set(&mut rows, "plant", "childrenFlatten", Some(sym_list(&["entity"])));
     set(&mut rows, "b-c", "is", Some(sym_list(&["a"])));
+    set(&mut rows, "e2", "children", Some(V::str("fan equip\ndamper equip d")));
     rows
 }
 
@@ -342,6 +344,21 @@ fn cold_answers_variant(part: &Arc<Partition>) -> Result<Vec<String>, String> {
             ex.results.into_iter().next().unwrap()
         })
         .collect()
+}
+
+/// the variant's cold answers, computed in a fresh child process (state that is global to the
+/// process — a static memo keyed by def name — would otherwise already be in the baseline)
+fn cold_variant_from_child() -> Result<Vec<String>, String> {
+    let describe = |_o: u64| json!({"two_namespaces": [0, 0]});
+    let job = Job { prop: "C14", tier: "quick", job: "cold-variant", n: 1, chunk: 1, env: vec![], exe: None, describe: &describe };
+    let l = run_job(&job);
+    if let Some(f) = l.fails.values().next() {
+        return Err(format!("{}: {}", f.sig, f.detail));
+    }
+    l.samples
+        .iter()
+        .find_map(|s| s["cold_variant"].as_array().map(|a| a.iter().map(|x| x.as_str().unwrap_or("").to_string()).collect()))
+        .ok_or_else(|| "the child did not return the variant's cold answers".to_string())
 }
 
 fn two_namespace_case(i: usize, j: usize, cold: &[String], cold2: &[String], part: &Arc<Partition>) -> Verdict {
@@ -755,6 +772,15 @@ pub fn child(_tier: Tier, job: String, _start: u64, _end: u64, ctx: &mut ChildCt
     // the Real-DashMap history search runs isolated: a guard held across an insert into the same
     // shard self-deadlocks inside the genuine DashMap and is seen by the parent as a hang
     ctx.begin(0);
+    if job == "cold-variant" {
+        // the variant namespace's answers from a process that has never seen the other namespace
+        let part = Arc::new(partition_extreme(true));
+        match with_partition(&part, || cold_answers_variant(&part)) {
+            Ok(a) => local.samples.push(json!({"cold_variant": a})),
+            Err(e) => local.fail("history-panic:two-namespaces", json!({"two_namespaces": [0, 0]}), e),
+        }
+        return;
+    }
     if job.starts_with("free:") {
         let (threads, millis) = free_running_params(&job);
         let (done, bad) = free_running(threads, millis);
@@ -927,11 +953,11 @@ pub fn run(tier: Tier) -> i32 {
                 local.transitions += hist.len() as u64;
                 local.count("pair-histories");
                 match with_partition(&part, || run_history(hooks::Mode::Shim, &hist, &part)) {
-                    Err(e) => local.fail("history-panic:pairs", json!({"history": hist, "backend": "shim"}), e),
+                    Err(e) => local.fail("history-panic:pairs", json!({"history": hist, "backend": "shim", "family": "pairs"}), e),
                     Ok((answers, _)) => {
                         let a = answers.last().unwrap();
                         if *a != cold[j] {
-                            local.fail("history-changes-answer:pairs", json!({"history": hist, "backend": "shim"}), format!("query {:?} after {:?} answers {a:?}, cold answer {:?}", queries()[j], hist[..hist.len() - 1].iter().map(|q| format!("{:?}", queries()[*q])).collect::<Vec<_>>(), cold[j]));
+                            local.fail("history-changes-answer:pairs", json!({"history": hist, "backend": "shim", "family": "pairs"}), format!("query {:?} after {:?} answers {a:?}, cold answer {:?}", queries()[j], hist[..hist.len() - 1].iter().map(|q| format!("{:?}", queries()[*q])).collect::<Vec<_>>(), cold[j]));
                         }
                     }
                 }
@@ -944,7 +970,7 @@ pub fn run(tier: Tier) -> i32 {
     if hs.failure.is_none() {
         let n = queries().len() - EXTRA;
         let part = Arc::new(partition_extreme(true));
-        match cold_answers_variant(&part) {
+        match cold_variant_from_child() {
             Err(e) => run.stats.fail("history-panic:two-namespaces", json!({"two_namespaces": [0, 0]}), e),
             Ok(cold2) => {
                 let differing = (0..n).filter(|&i| cold[i] != cold2[i]).count();
@@ -1101,15 +1127,25 @@ pub fn replay(case: &J) -> Verdict {
     if let Some(p) = case["two_namespaces"].as_array() {
         let (i, j) = (p[0].as_u64().unwrap_or(0) as usize, p[1].as_u64().unwrap_or(0) as usize);
         let part = Arc::new(partition_extreme(true));
-        let cold2 = cold_answers_variant(&part).map_err(|e| ("history-panic:two-namespaces".to_string(), e))?;
+        let cold2 = cold_variant_from_child().map_err(|e| ("history-panic:two-namespaces".to_string(), e))?;
         return two_namespace_case(i, j, &cold, &cold2, &part);
     }
     let r = RefNs::make(&scenario_rows());
-    if let Some(h) = case["history"].as_array() {
+    if let Some(h) = case["history"].as_array().filter(|_| case["family"] == "pairs" || case["volume"] == true) {
         // one concrete history (pair / repetition / volume families)
         let hist: Vec<usize> = h.iter().map(|x| x.as_u64().unwrap_or(0) as usize).collect();
         let part = Arc::new(if case["volume"] == true { partition_extreme(false) } else { partition_extreme(true) });
-        let fam = if case["volume"] == true { "volume" } else { "pairs" };
+        // the family names the search that found the history: pairs / volume, or the history search
+        // itself on the Shim or on the genuine DashMap (the concrete history is replayed on the Shim)
+        let fam = if case["volume"] == true {
+            "volume"
+        } else if case["family"] == "pairs" {
+            "pairs"
+        } else if case["backend"] == "real" {
+            "real-dashmap"
+        } else {
+            "shim"
+        };
         return match with_partition(&part, || run_history(hooks::Mode::Shim, &hist, &part)) {
             Err(e) => Err((format!("history-panic:{fam}"), e)),
             Ok((answers, _)) => {
